@@ -11,6 +11,7 @@ open CbcIO
 open Exefs
 open Tmd
 open Ncch
+open NcchFull
 open Driver_base
 
 let opt f = function None -> "-" | Some x -> f x
@@ -175,6 +176,17 @@ let run_ranges toks =
       (exefs_ranges extra (z_of_hex size)))
   | _ -> failwith "ranges args"
 
+(* fulldec <content> <raw> <6 x off,size,plain in the order romfs exefs header extheader logo plain> <off> <size> *)
+let run_fulldec toks =
+  match toks with
+  | [content; raw; r1; r2; r3; r4; r5; r6; off; size] ->
+    let reg t = match String.split_on_char ',' t with
+      | [o; s; p] -> { r_off = z_of_hex o; r_size = z_of_hex s; r_plain = bytes_of_hex p } | _ -> failwith "region" in
+    let n = { n_romfs = reg r1; n_exefs = reg r2; n_header = reg r3; n_ext = reg r4; n_logo = reg r5; n_plain = reg r6;
+              n_content = z_of_hex content; n_raw = bytes_of_hex raw } in
+    hex_of_bytes (fulldec_read n (z_of_hex off) (z_of_hex size))
+  | _ -> failwith "fulldec args"
+
 let dispatch (line : string) : string =
   match String.split_on_char ' ' (String.trim line) with
   | "engine" :: toks -> run_engine toks
@@ -184,6 +196,7 @@ let dispatch (line : string) : string =
   | "exefs" :: toks -> run_exefs toks
   | "tmd" :: toks -> run_tmd toks
   | "ranges" :: toks -> run_ranges toks
+  | "fulldec" :: toks -> run_fulldec toks
   | e :: _ -> failwith ("unknown entry " ^ e)
   | [] -> ""
 
